@@ -5,6 +5,7 @@ from ..tlaparse import iter_dump, to_json
 
 CFG = """SPECIFICATION Spec
 CONSTANTS MaxBatch = %(batch)d
+ BigBatches = {%(big)s}
  Kinds = {%(kinds)s}
  KeyKinds = {%(keys)s}
  Modes = {%(modes)s}
@@ -35,16 +36,17 @@ def q(xs):
 
 
 def fam(name, batch, kinds=ALL_KINDS, keys=ALL_KEYS, modes=('fill', 'autofill'), sims=(1, 2, 3, 4, 5), chains=(10,), uniform=True,
-        hard_gas=1040000, hard_storage=60000):
-    return dict(name=name, batch=batch, kinds=q(kinds), keys=q(keys), modes=q(modes), sims=', '.join(map(str, sims)),
+        hard_gas=1040000, hard_storage=60000, big=()):
+    return dict(name=name, batch=batch, big=', '.join(map(str, big)), kinds=q(kinds), keys=q(keys), modes=q(modes), sims=', '.join(map(str, sims)),
                 chains=', '.join(map(str, chains)), uniform='TRUE' if uniform else 'FALSE', hard_gas=hard_gas, hard_storage=hard_storage)
 
 
 def families(quick):
     if quick:
-        return [fam('b2', 2), fam('b3', 3, kinds=('transaction', 'reveal', 'origination'), sims=(2, 4, 5)),
+        return [fam('b2', 2), fam('big', 1, kinds=('transaction',), keys=('tz1', 'tz4'), modes=('autofill', 'fill'), sims=(1, 2, 6), big=(17, 33, 49)), fam('b3', 3, kinds=('transaction', 'reveal', 'origination'), sims=(2, 4, 5)),
                 fam('mixed-sims', 2, kinds=('transaction', 'origination'), keys=('tz1', 'tz4'), modes=('autofill',), sims=(1, 3, 5, 7), uniform=False)]
     return [fam('b3', 3, sims=(1, 2, 3, 4, 5, 6, 7), chains=(10, 16383)),
+            fam('big', 1, kinds=('transaction',), modes=('autofill', 'fill'), sims=(1, 2, 3, 6), big=(17, 25, 33, 40, 47, 49, 64, 95)),
             fam('b4', 4, kinds=('transaction', 'reveal', 'origination'), sims=(1, 4, 5)),
             fam('mixed-sims', 3, kinds=('transaction', 'transaction_kt', 'origination'), modes=('autofill',), sims=(1, 2, 3, 4, 5, 6, 7), uniform=False)]
     # Not a registered family (the property does not quantify over protocol constants; every network in the repository uses
